@@ -10,6 +10,8 @@
 (*                              authentication (Insecure)                   *)
 (*   best                       what a complete validator says in the       *)
 (*                              un-faulted world (witness accounting only)  *)
+(*   diag                       for reports: what the un-faulted world      *)
+(*                              allows and which faults forbid it alone     *)
 (* Bogus / Indeterminate / an error are always allowed: the property is an  *)
 (* "only if" in both of its clauses.                                        *)
 EXTENDS ChainOps, TLC, Json
@@ -33,7 +35,8 @@ Case == [world |-> gw, q |-> gq, faults |-> gF,
          allow |-> Allow(gw, gF, gq),
          negSecure |-> NegSecureOk(gw, gF, gq),
          negInsecure |-> InsecureOk(gw, gF, gw.n),
-         best |-> Best(gw)]
+         best |-> Best(gw),
+         diag |-> Diagnosis(gw, gF, gq)]
 
 Emit == PrintT(<<"REPLAY", ToJson(Case)>>)
 =============================================================================
